@@ -113,6 +113,11 @@ class H:
         for path, n in walk(plan["tree"]):
             self.by_cls[node_cls(n)] = (path, n)
         self.instances: dict[str, Any] = {}
+        # hard-coded add_component() keyword arguments live as long-lived objects (like
+        # module-level default dictionaries in a real component) shared by every start
+        self.hard_kw: dict[str, dict] = {
+            path: copy.deepcopy((n.get("hard") or {}).get("kw", {})) for path, n in walk(plan["tree"])
+        }
         self.real: Context | None = None
         self.vals: dict[int, str] = {}
         self.keep: list[Any] = []
@@ -149,7 +154,7 @@ class H:
             if hard is None:
                 continue
             tf = hard.get("tf")
-            kw = copy.deepcopy(hard.get("kw", {}))
+            kw = self.hard_kw[f"{path}.{c['alias']}" if path else c["alias"]]
             if tf == "alias" or tf is None:
                 inst.add_component(c["alias"], **kw)
             else:
@@ -464,6 +469,10 @@ def make_main(plan: dict):
                         round=rnd,
                         now=_j(cfg) if cfg != snap else None,
                     )
+                    for hp, hk in h.hard_kw.items():
+                        want_hk = (dict(walk(plan["tree"]))[hp].get("hard") or {}).get("kw", {})
+                        if hk != want_hk:
+                            sim.log("hard_kw_mutated", path=hp, now=_j(hk), was=_j(want_hk), round=rnd)
                     # keep running: nothing of the tree may move after start_component ended
                     await anyio.sleep(linger)
                     sim.log("linger_end", round=rnd)
@@ -727,6 +736,8 @@ def oracle(sim: Sim, plan: dict) -> list[dict]:
             if r[5]["cls"] != node_cls(n).__name__:
                 v("C14.type", "class", f"component {r[5]['path']} is a {r[5]['cls']}, expected {node_cls(n).__name__}")
         for r in tr:
+            if r[4] == "hard_kw_mutated":
+                v("C14.merge", "hardcoded_defaults_mutated", f"the keyword arguments hard-coded in add_component() for {r[5]['path']} were modified by start_component: {r[5]['was']} -> {r[5]['now']}")
             if r[4] == "cfg_after":
                 if not r[5]["equal"] or not r[5]["same_objects"]:
                     v("C14.config_intact", f"mutated_after_{r[5]['outcome']}", f"configuration object modified by start_component ({r[5]['outcome']}): now {r[5]['now']}")
